@@ -231,7 +231,7 @@ def _kill(case, ctx):
         ctx.violation(f"child-failed:{w}", f"child exited {res.returncode}: {res.stderr[-400:]}", case)
         return
     ctx.count("kill:died_at_point" if died else "kill:ran_to_completion")
-    present = [f for f in os.listdir(d) if f != "in.fil" and not f.endswith(".inf") and not f.startswith(".")]
+    present = [f for f in os.listdir(d) if f not in ("in.fil", "in2.fil") and not f.endswith(".inf") and not f.startswith(".")]
     started = []
     if os.path.exists(os.path.join(d, ".writes")):
         started = list(dict.fromkeys(open(os.path.join(d, ".writes")).read().split()))
@@ -389,7 +389,7 @@ def _strace(case, ctx):
         ctx.skip(f"strace run failed rc={res.returncode}")
         ctx.notes["strace_fail"] = res.stderr[-300:]
         return
-    outs = [os.path.join(d, f) for f in os.listdir(d) if f not in ("in.fil", "strace.log") and not f.endswith(".inf")]
+    outs = [os.path.join(d, f) for f in os.listdir(d) if f not in ("in.fil", "in2.fil", "strace.log") and not f.endswith(".inf")]
     if case.get("long"):
         hls = [sigfile.parse_header(open(p, "rb").read())[1] for p in outs]
         if min(hls) <= 512:
